@@ -32,6 +32,32 @@ pub use transform::FastCheckDtsModule;
 pub use transform::FastCheckModule;
 pub use transform::TransformOptions;
 
+/// Verification hooks, see `range_finder::verif`.
+#[cfg(denoland_deno_graph_verif)]
+pub use range_finder::verif as verif_range_finder;
+
+/// Verification hook: the public ranges the tracer finds for the given
+/// packages, as a JSON dump (see `range_finder::verif::public_ranges_dump`).
+#[cfg(denoland_deno_graph_verif)]
+pub fn verif_public_ranges<'a>(
+  fast_check_cache: Option<&'a dyn FastCheckCache>,
+  jsr_url_provider: &'a dyn crate::source::JsrUrlProvider,
+  graph: &'a crate::ModuleGraph,
+  root_symbol: &'a crate::symbols::RootSymbol<'a>,
+  workspace_members: &'a [crate::WorkspaceMember],
+  pending_nvs: std::collections::VecDeque<deno_semver::package::PackageNv>,
+) -> serde_json::Value {
+  let ranges = range_finder::find_public_ranges(
+    fast_check_cache,
+    jsr_url_provider,
+    graph,
+    root_symbol,
+    workspace_members,
+    pending_nvs,
+  );
+  range_finder::verif::public_ranges_dump(&ranges, graph, root_symbol)
+}
+
 #[derive(Clone)]
 pub struct FastCheckDiagnosticRange {
   pub specifier: ModuleSpecifier,
